@@ -48,18 +48,19 @@ def avm_effects(res):
 
 
 class AvmOutcome:
-    __slots__ = ("status", "ret", "error", "effects", "scratch", "san", "res", "dropped")
+    __slots__ = ("status", "ret", "error", "effects", "scratch", "san", "res", "dropped", "callret")
 
     def __init__(self):
         self.status = self.ret = self.error = self.effects = self.scratch = self.san = self.res = self.dropped = None
+        self.callret = None
 
 
-def run_avm(prog, ctx_desc, routine_info=None, max_steps=200000):
+def run_avm(prog, ctx_desc, routine_info=None, max_steps=200000, trace_calls=False):
     from . import recipes
     o = AvmOutcome()
     ctx = recipes.make_ctx(ctx_desc)
     try:
-        r = avm.run(prog, ctx, max_steps=max_steps, routine_info=routine_info)
+        r = avm.run(prog, ctx, max_steps=max_steps, routine_info=routine_info, trace_calls=trace_calls)
     except avm.Unsupported as e:
         o.dropped = "unsupported:" + str(e)[:40]
         return o
@@ -75,6 +76,8 @@ def run_avm(prog, ctx_desc, routine_info=None, max_steps=200000):
     o.res = r
     o.status, o.ret, o.error = r.status, r.ret, r.error
     o.effects = avm_effects(r)
+    if trace_calls:
+        o.callret = [t for t in (r.trace or []) if t and t[0] in ("call", "ret")]
     o.scratch = r.scratch
     o.san = list(r.san or [])
     return o
